@@ -25,7 +25,7 @@ INFO = {
 KEY_PIN_WEEK0 = "C05:--pin-date when the current week number (WW/0W/UU/0U) is 0"
 KEY_FINAL_TAGNUM = "C05:--tag final together with --tag-num"
 
-QUICK = ["MAJOR.MINOR.PATCH[PYTAGNUM]", "YYYY.MM[.INC0]", "vYYYY.WW[-TAGNUM]", "YYYY.BUILD[-TAG]"]
+QUICK = ["MAJOR.MINOR.PATCH[PYTAGNUM]", "YYYY.MM[.INC0]", "YY.0M.INC1", "vYYYY.WW[-TAGNUM]", "YYYY.BUILD[-TAG]"]
 THOROUGH = [p for p in grammar.G_DOC if grammar.info(p)["flavour"] != "fulldate"]
 
 
